@@ -4,7 +4,94 @@ from pyvc.run import Job
 from . import apply_bounded, kernels
 
 
+# symbolic DATA directives of a patch: (line, bytes it occupies, expression it must leave at its offset)  -- S0 / S1 are module symbols
+# (a LEB128 of a difference of two module symbols cannot be resolved by the assembler: one placeholder byte carries the expression)
+DATA_LINES = [
+    (".quad S0 + 16", 8, ("const", 16, "S0")),
+    (".long S1", 4, ("const", 0, "S1")),
+    (".long S1 - S0", 4, ("diff", "S1", "S0")),
+    (".uleb128 S1 - S0", 1, ("diff", "S1", "S0")),
+    (".sleb128 S0 - S1", 1, ("diff", "S0", "S1")),
+    (".byte 7", 1, None),
+]
+
+
+def data_patch_expressions(tier, seed):
+    """C04 for patches made of DATA directives (tables such as an LSDA being extended): "expressions created by a patch appear at the patch
+    position plus their offset inside the patch, refer by identity to the module's existing symbols and keep their addend"; expressions that
+    were there move with their bytes.  Every directive that can carry a symbolic value, alone and in ordered pairs, at three positions."""
+    def run():
+        import itertools
+        import logging
+        import gtirb
+        import gtirb_rewriting
+        from bounded import scen
+        from gtirb_test_helpers import add_data_block, add_data_section, add_symbol, create_test_module
+        from pyvc.run import BResult
+        logging.getLogger("gtirb_rewriting").setLevel(logging.CRITICAL)
+        br = BResult()
+        br.bound = "%d data directives (.quad / .long / .long difference / .uleb128 / .sleb128 / .byte), singly and in every ordered pair, inserted at offset 0, 4 (in front of an existing expression) and 12 (the end) of a 12-byte data block followed by another data block; x86-64 ELF" % len(DATA_LINES)
+        br.clauses = ["C04/data-patch/apply-does-not-raise", "C04/data-patch/bytes-around-the-patch-are-kept", "C04/data-patch/every-expression-of-the-patch-at-its-offset-with-the-module-symbols-and-its-addend",
+                      "C04/data-patch/existing-expression-moves-with-its-byte", "C04/data-patch/no-other-expression-appears", "C04/data-patch/no-symbol-is-added"]
+        seqs = [(l,) for l in DATA_LINES] + list(itertools.product(DATA_LINES, repeat=2))
+        distinct = set()
+        for seq, pos in itertools.product(seqs, (0, 4, 12)):
+            br.cases += 1
+            desc = {"patch": [l[0] for l in seq], "inserted at offset": pos}
+            distinct.add((tuple(desc["patch"]), pos))
+            _, m = create_test_module(gtirb.Module.FileFormat.ELF, gtirb.Module.ISA.X64)
+            _, bi = add_data_section(m, address=0x1000)
+            table = add_data_block(bi, b"\x01\x02\x03\x04" + b"\x00" * 8)
+            other = add_data_block(bi, b"\xaa\xbb")
+            syms = {"S0": add_symbol(m, "S0", table), "S1": add_symbol(m, "S1", other)}
+            bi.symbolic_expressions[4] = gtirb.SymAddrConst(2, syms["S1"])
+            nsym = len(m.symbols)
+            before = bytes(bi.contents)
+            ctx = gtirb_rewriting.RewritingContext(m, [])
+            ctx.insert_at(table, pos, scen.mkpatch("\n".join(l[0] for l in seq)))
+
+            def fail(clause, detail):
+                br.failures.append({"clause": clause, "witness": desc, "detail": detail})
+            try:
+                ctx.apply()
+            except Exception as ex:      # noqa
+                fail("C04/data-patch/apply-does-not-raise", "%s: %s" % (type(ex).__name__, str(ex)[:100]))
+                continue
+            plen = sum(l[1] for l in seq)
+            after = bytes(bi.contents)
+            if after[:pos] != before[:pos] or after[pos + plen:] != before[pos:] or bi.size != len(before) + plen:
+                fail("C04/data-patch/bytes-around-the-patch-are-kept", "%s -> %s (patch of %d bytes at %d)" % (before.hex(), after.hex(), plen, pos))
+                continue
+            want = {}
+            off = pos
+            for line, size, ex in seq:
+                if ex is not None:
+                    want[off] = gtirb.SymAddrConst(ex[1], syms[ex[2]]) if ex[0] == "const" else gtirb.SymAddrAddr(1, 0, syms[ex[1]], syms[ex[2]])
+                off += size
+            old_at = 4 + plen if pos <= 4 else 4
+            got = dict(bi.symbolic_expressions)
+            for k, w in want.items():
+                g = got.get(k)
+                same = g is not None and type(g) is type(w) and g == w and all(a is b for a, b in zip(g.symbols, w.symbols))
+                if not same:
+                    fail("C04/data-patch/every-expression-of-the-patch-at-its-offset-with-the-module-symbols-and-its-addend", "offset %d: expected %r, found %r (all: %s)" % (k, w, g, sorted(got)))
+            o = got.get(old_at)
+            if not (isinstance(o, gtirb.SymAddrConst) and o.offset == 2 and o.symbol is syms["S1"]):
+                fail("C04/data-patch/existing-expression-moves-with-its-byte", "expected SymAddrConst(2, S1) at %d, found %r (all: %s)" % (old_at, o, sorted(got)))
+            extra = sorted(set(got) - set(want) - {old_at})
+            if extra:
+                fail("C04/data-patch/no-other-expression-appears", "unexpected expressions at %s" % extra)
+            if len(m.symbols) != nsym:
+                fail("C04/data-patch/no-symbol-is-added", "symbols: %s" % sorted(s.name for s in m.symbols))
+            if len(br.samples) < 2:
+                br.samples.append(desc)
+        br.nontrivial = len(distinct)
+        return br
+    return run
+
+
 def jobs(tier="quick", seed=0):
+    yield Job("C04/data-patch-expressions-bounded", data_patch_expressions(tier, seed), kind="B", func="gtirb_rewriting._modify.edit:insert / assembler:_Streamer (data directives with symbolic values)")
     yield from kernels.jobs_for("C04", tier, seed)
     yield apply_bounded.job("C04", tier, seed)
     # "expressions contributed by a patch ... keep their addend": a patch's expressions are the assembler's; every way of writing a
